@@ -328,28 +328,50 @@ def _inline_call(c, bi, h, arg_ops):
 
 def _thread_returns(c, first_new, cont, dest, adt_discr):
     """Jump threading after inlining: the inlined callee ends in blocks that assign the call's destination a known variant / constant and jump to the
-    continuation, which does nothing but test that discriminant / flag (`match helper() { A => .., B => .. }`, `if helper() { .. }`).  Each such block is sent
-    straight to the arm its value selects (through a copy of the continuation's discriminant read), so that the control-flow graph has no path on which
-    the helper returned A and the caller went on in arm B.  Nothing is threaded unless the shape is exactly that."""
+    continuation, which does nothing but test that discriminant / flag (`match helper() { A => .., B => .. }`, `if helper() { .. }`, `helper()?`).  Each such
+    block is sent straight to the arm its value selects (through copies of the straight-line blocks in between and of the continuation's test), so that the
+    control-flow graph has no path on which the helper returned A and the caller went on in arm B.  Nothing is threaded unless the shape is exactly that."""
     import copy
     if cont is None or dest["proj"]:
         return 0
     cb = c["blocks"][cont]
     t = cb["term"]
-    if t["k"] != "switch":
-        return 0
-    opl = t["op"].get("move") or t["op"].get("copy")
-    if opl is None or opl["proj"]:
-        return 0
-    flag_test = opl["l"] == dest["l"] and not cb["stmts"]
-    discr_test = (len(cb["stmts"]) == 1 and cb["stmts"][0]["rv"]["k"] == "discr" and cb["stmts"][0]["rv"]["p"] == dest
-                  and cb["stmts"][0]["place"] == {"l": opl["l"], "proj": []})
-    if not (flag_test or discr_test):
+    flag_test = discr_test = try_test = False
+    try_kind = None
+    if t["k"] == "switch":
+        opl = t["op"].get("move") or t["op"].get("copy")
+        if opl is None or opl["proj"]:
+            return 0
+        flag_test = opl["l"] == dest["l"] and not cb["stmts"]
+        discr_test = (len(cb["stmts"]) == 1 and cb["stmts"][0]["rv"]["k"] == "discr" and cb["stmts"][0]["rv"]["p"] == dest
+                      and cb["stmts"][0]["place"] == {"l": opl["l"], "proj": []})
+        sw, pre = t, cb["stmts"]
+    elif (t["k"] == "call" and (t.get("callee") or "").endswith("ops::Try::branch") and not cb["stmts"] and len(t["args"]) == 1
+          and t["args"][0].get("move") == dest and t.get("ret") is not None and not t["dest"]["proj"]):
+        # `helper()?`: the continuation is `d = Try::branch(move dest)` followed by the test of d's discriminant
+        st_ = str(t.get("self_ty") or "")
+        try_kind = "Result" if re.match(r"(std|core)::result::Result<", st_) else ("Option" if re.match(r"(std|core)::option::Option<", st_) else None)
+        tb = c["blocks"][t["ret"]]
+        sw = tb["term"]
+        opl = (sw["op"].get("move") or sw["op"].get("copy")) if sw["k"] == "switch" else None
+        try_test = (try_kind is not None and opl is not None and not opl["proj"] and len(tb["stmts"]) == 1 and tb["stmts"][0]["rv"]["k"] == "discr"
+                    and tb["stmts"][0]["rv"]["p"] == t["dest"] and tb["stmts"][0]["place"] == {"l": opl["l"], "proj": []})
+        pre = tb["stmts"]
+    if not (flag_test or discr_test or try_test):
         return 0
 
+    def arm_of(v):
+        """value left in dest -> value the continuation's switch sees"""
+        if not try_test:
+            return v
+        if try_kind == "Result":        # Ok(0) -> Continue(0), Err(1) -> Break(1)
+            return v
+        return 1 - v                    # None(0) -> Break(1), Some(1) -> Continue(0)
+
     def value_of(blk):
-        """discriminant / constant the block leaves in dest (its last assignment to dest), or None"""
+        """(discriminant / constant the block leaves in dest, the block it goes on to), or (None, None)"""
         v = None
+        tt = blk["term"]
         for st in blk["stmts"]:
             if st["place"]["l"] == dest["l"]:
                 if st["place"]["proj"]:
@@ -357,35 +379,64 @@ def _thread_returns(c, first_new, cont, dest, adt_discr):
                     continue
                 rv = st["rv"]
                 v = None
-                if rv["k"] == "agg" and isinstance(rv["kind"], dict) and "vi" in rv["kind"] and discr_test:
+                if rv["k"] == "agg" and isinstance(rv["kind"], dict) and "vi" in rv["kind"] and (discr_test or try_test):
                     v = adt_discr(rv["kind"].get("adt"), rv["kind"]["vi"])
                 elif rv["k"] == "use" and "const" in rv["a"] and rv["a"]["const"].get("int") is not None and flag_test:
                     v = int(rv["a"]["const"]["int"])
-        return v
+        if tt["k"] == "goto":
+            return v, tt["t"]
+        if (tt["k"] == "call" and (tt.get("callee") or "").endswith("ops::FromResidual::from_residual") and tt["dest"] == dest and tt.get("ret") is not None
+                and (discr_test or try_test)):
+            # `?` inside the helper: what it hands back is the residual variant
+            st_ = str(tt.get("self_ty") or "")
+            if re.match(r"(std|core)::result::Result<", st_):
+                return 1, tt["ret"]
+            if re.match(r"(std|core)::option::Option<", st_):
+                return 0, tt["ret"]
+        return None, None
 
-    arms = {int(v): b for v, b in t["arms"]}
+    def writes_dest(blk):
+        return any(st["place"]["l"] == dest["l"] for st in blk["stmts"])
+
+    def chain_to_cont(i):
+        """the straight-line blocks (single `goto`, dest untouched) from block i to the continuation, or None"""
+        out = []
+        while i != cont:
+            if len(out) > 8 or i < first_new:
+                return None
+            bl = c["blocks"][i]
+            if bl["term"]["k"] != "goto" or writes_dest(bl):
+                return None
+            out.append(i)
+            i = bl["term"]["t"]
+        return out
+
+    arms = {int(v): b for v, b in sw["arms"]}
     n = 0
-    new_blocks = list(range(first_new, len(c["blocks"])))
-
-    def leads_to_cont(i, depth=0):
-        """block i reaches the continuation through empty `goto` blocks only"""
-        if i == cont:
-            return True
-        if depth > 8 or i < first_new:
-            return False
-        bl = c["blocks"][i]
-        return not bl["stmts"] and bl["term"]["k"] == "goto" and leads_to_cont(bl["term"]["t"], depth + 1)
-    for p_ in new_blocks:
+    for p_ in range(first_new, len(c["blocks"])):
         pb = c["blocks"][p_]
-        if pb["term"]["k"] != "goto" or not leads_to_cont(pb["term"]["t"]):
-            continue
-        v = value_of(pb)
+        v, nxt = value_of(pb)
         if v is None:
             continue
-        tgt = arms.get(v, t["otherwise"])
-        nb = {"cleanup": False, "stmts": copy.deepcopy(cb["stmts"]), "term": {"k": "goto", "t": tgt}}
-        c["blocks"].append(nb)
-        pb["term"] = {"k": "goto", "t": len(c["blocks"]) - 1}
+        chain = chain_to_cont(nxt)
+        if chain is None:
+            continue
+        tgt = arms.get(arm_of(v), sw["otherwise"])
+        # copies, last to first: the continuation's test, then the straight-line blocks before it
+        c["blocks"].append({"cleanup": False, "stmts": copy.deepcopy(pre), "term": {"k": "goto", "t": tgt}})
+        head = len(c["blocks"]) - 1
+        if try_test:
+            tcall = copy.deepcopy(t)
+            tcall["ret"] = head
+            c["blocks"].append({"cleanup": False, "stmts": [], "term": tcall})
+            head = len(c["blocks"]) - 1
+        for ci in reversed(chain):
+            c["blocks"].append({"cleanup": False, "stmts": copy.deepcopy(c["blocks"][ci]["stmts"]), "term": {"k": "goto", "t": head}})
+            head = len(c["blocks"]) - 1
+        if pb["term"]["k"] == "goto":
+            pb["term"] = {"k": "goto", "t": head}
+        else:
+            pb["term"]["ret"] = head
         n += 1
     return n
 
